@@ -16,7 +16,7 @@ func init() {
 		Explanation: "Decides structural clauses of delete correctness: D1 order inside a delete: tombstones committed on every overlapping file (the error of the parallel apply is checked) before the cache range is removed, before the WAL delete entry is written; the index is touched only after the file walk and the cache walk that cross out surviving series; " +
 			"D2 level compactions, series-file compactions and TSI compactions are disabled before the first deleteSeriesRange on every path and re-enabled by a deferred call; enableLevelCompactions restarts compactions only when no delete still holds them; " +
 			"D3 WAL replay handles every WALEntry implementation (deletes are replayed); D4 the inclusive range-overlap predicates equal their specification on every ordering; D5 lock pairing in the delete's closures; " +
-			"D6 FileStore.Apply reports an error if any file's function failed (a nil result never overwrites an error); D7 the reconciliation pass examines every file (no time-range filter) so a series that still has points in a non-overlapping file stays listed; D8 a delete covers every container of not-yet-filed points: Cache.DeleteRange filters the in-flight snapshot too, or the delete path excludes cache snapshots while it runs (neither today: recorded known finding with a demonstration); D9 a tag value is listed only after its series were narrowed to the undeleted ones (tsi1 keeps a value after its last series was dropped; fixed in 185e5ef); D10 a cache entry's values are indexed only after Deduplicate sorted them. " +
+			"D6 FileStore.Apply reports an error if any file's function failed (a nil result never overwrites an error); D7 the reconciliation pass examines every file (no time-range filter) so a series that still has points in a non-overlapping file stays listed; D8 a delete covers every container of not-yet-filed points: Cache.DeleteRange filters the in-flight snapshot too, or the delete path excludes cache snapshots while it runs (neither today: recorded known finding with a demonstration); D9 a tag value is listed only after its series were narrowed to the undeleted ones (tsi1 keeps a value after its last series was dropped; fixed in 185e5ef); D10 a cache entry's values are indexed only after Deduplicate sorted them; D11 the bounds of the delete batch are read after the batch is sorted; D12 a failed tombstone commit fails the delete on every path. " +
 			"NOT decided: exactness of Values.Exclude index arithmetic, tombstone file format.",
 		RuleText:    "obligation = (rule, function, site); outcome/marker path exploration; registry agreement of the WAL entry family; exhaustive predicate evaluation; lock balance exploration",
 		Assumptions: commonAssumptions,
